@@ -80,25 +80,19 @@ Inductive escaped (attr : bool) : pystr -> Prop :=
 | esc_ent e l : In e [s "amp"; s "lt"; s "gt"] \/ (attr = true /\ e = s "quot") ->
                 escaped attr l -> escaped attr ([38] ++ e ++ [59] ++ l).
 
-Lemma escaped_no (attr : bool) l : escaped attr l ->
-  ~ In 60 l /\ ~ In 62 l /\ (attr = true -> ~ In 34 l).
+Lemma escaped_no (attr : bool) l k : escaped attr l ->
+  (k = 60 \/ k = 62 \/ (attr = true /\ k = 34)) -> ~ In k l.
 Proof.
-  induction 1 as [|c l H1 H2 H3 H4 _ (I1 & I2 & I3)|e l He _ (I1 & I2 & I3)].
+  intros H Hk. induction H as [|c l H1 H2 H3 H4 _ IH|e l He _ IH].
   - simpl; tauto.
-  - simpl. repeat split; try intros [E|E]; try intros A [E|E]; subst; auto; try congruence.
-    + exact (I3 A E).
-    + exact (H4 A eq_refl).
-  - assert (Hs : forall k, (k = 60 \/ k = 62 \/ k = 34) -> In k ([38] ++ e ++ [59] ++ l) -> In k l).
-    { intros k Hk Hin. simpl in Hin. destruct Hin as [E|Hin]; [lia|].
-      apply in_app_or in Hin as [Hin|Hin].
-      - exfalso. destruct He as [He|[_ ->]].
-        + simpl in He. destruct He as [<-|[<-|[<-|[]]]]; simpl in Hin; lia.
-        + simpl in Hin; lia.
-      - simpl in Hin. destruct Hin as [E|Hin]; [lia|exact Hin]. }
-    repeat split.
-    + intro H; apply I1, (Hs 60); auto.
-    + intro H; apply I2, (Hs 62); auto.
-    + intros A H; apply (I3 A), (Hs 34); auto.
+  - intros [E|E]; [|exact (IH E)]. subst c.
+    destruct Hk as [->|[->|[A ->]]]; [congruence|congruence|exact (H4 A eq_refl)].
+  - intro Hin. simpl in Hin. destruct Hin as [E|Hin]; [lia|].
+    apply in_app_or in Hin as [Hin|Hin].
+    + destruct He as [He|[_ ->]].
+      * simpl in He. destruct He as [<-|[<-|[<-|[]]]]; simpl in Hin; lia.
+      * simpl in Hin; lia.
+    + simpl in Hin. destruct Hin as [E|Hin]; [lia|exact (IH Hin)].
 Qed.
 
 Theorem escape_clean x : escaped false (escape x).
@@ -106,11 +100,11 @@ Proof.
   rewrite escape_flat. induction x as [|c x IH]; simpl; [constructor|].
   unfold esc_char.
   destruct (eqb_cases c) as [->|[->|[->|[->|(H1 & H2 & H3 & H4)]]]]; simpl.
-  - apply (esc_ent false (s "amp")); [left; simpl; auto | exact IH].
-  - apply (esc_ent false (s "gt")); [left; simpl; auto | exact IH].
-  - apply (esc_ent false (s "lt")); [left; simpl; auto | exact IH].
-  - apply esc_plain; try lia; [discriminate | exact IH].
-  - neqb. simpl. apply esc_plain; auto. discriminate.
+  - refine (esc_ent false (s "amp") _ _ IH). left; simpl; auto.
+  - refine (esc_ent false (s "gt") _ _ IH). left; simpl; auto.
+  - refine (esc_ent false (s "lt") _ _ IH). left; simpl; auto.
+  - apply esc_plain; [lia|lia|lia|discriminate|exact IH].
+  - neqb. simpl. apply esc_plain; auto; discriminate.
 Qed.
 
 Theorem escape_attr_clean x : escaped true (escape_attr x).
@@ -118,21 +112,21 @@ Proof.
   rewrite escape_attr_flat. induction x as [|c x IH]; simpl; [constructor|].
   unfold esc_attr_char, esc_char.
   destruct (eqb_cases c) as [->|[->|[->|[->|(H1 & H2 & H3 & H4)]]]]; simpl.
-  - apply (esc_ent true (s "amp")); [left; simpl; auto | exact IH].
-  - apply (esc_ent true (s "gt")); [left; simpl; auto | exact IH].
-  - apply (esc_ent true (s "lt")); [left; simpl; auto | exact IH].
-  - apply (esc_ent true (s "quot")); [right; auto | exact IH].
+  - refine (esc_ent true (s "amp") _ _ IH). left; simpl; auto.
+  - refine (esc_ent true (s "gt") _ _ IH). left; simpl; auto.
+  - refine (esc_ent true (s "lt") _ _ IH). left; simpl; auto.
+  - refine (esc_ent true (s "quot") _ _ IH). right; auto.
   - neqb. simpl. apply esc_plain; auto.
 Qed.
 
 Corollary escape_no_lt x : ~ In 60 (escape x).
-Proof. apply (escaped_no false), escape_clean. Qed.
+Proof. apply (escaped_no false); [apply escape_clean | auto]. Qed.
 Corollary escape_no_gt x : ~ In 62 (escape x).
-Proof. apply (escaped_no false), escape_clean. Qed.
+Proof. apply (escaped_no false); [apply escape_clean | auto]. Qed.
 Corollary escape_attr_no_lt x : ~ In 60 (escape_attr x).
-Proof. apply (escaped_no true), escape_attr_clean. Qed.
+Proof. apply (escaped_no true); [apply escape_attr_clean | auto]. Qed.
 Corollary escape_attr_no_quote x : ~ In 34 (escape_attr x).
-Proof. apply (escaped_no true); [apply escape_attr_clean | reflexivity]. Qed.
+Proof. apply (escaped_no true); [apply escape_attr_clean | auto]. Qed.
 
 (** * Decoding escaped text with the parser's text reader *)
 
